@@ -22,6 +22,9 @@ import (
 
 func init() { register("C16", c16) }
 
+// c16Vendor: a custom media type registered (with the JSON accessor) under a key that is not all lower case.
+const c16Vendor = "application/vnd.Verif.Doc+json"
+
 type rtInner struct {
 	S string  `json:"s" xml:"s"`
 	F float64 `json:"f" xml:"f"`
@@ -254,8 +257,9 @@ func breakBody(r *core.Rand, it *c16Item, plain []byte) {
 }
 
 func c16(ctx *core.Ctx) {
+	restful.RegisterEntityAccessor(c16Vendor, restful.NewEntityAccessorJSON(c16Vendor))
 	quietLogs()
-	ctx.Rule("values of a generated struct family (int64/uint64 extremes and 2^53+1, int32, float64 incl. max/denormal/random bit patterns, bool, attribute, nested struct, non-empty slices, strings over ASCII/markup/control/unicode runes restricted to XML Char for XML) are written by the framework's own entity writer (pretty on/off), optionally gzip- (single or multi-member) / deflate-compressed by the harness and posted to an echo route calling ReadEntity into the struct or (JSON, every 4th) into an untyped map where numbers must arrive as exact json.Number; Content-Type spellings with parameters and optional whitespace, or absent with a default request content type; both providers. Histories of 24 requests interleave well-formed bodies with broken ones {syntax, truncated document, empty, bad magic, declared-but-plain, garbage, truncated stream, trailer cut/flipped, syntax inside a valid stream}; run sequentially and from 16 goroutines (race detector on). Oracle: reference decode with fresh stdlib readers: error iff the reference errs (never a panic), value DeepEqual to the original / the reference value; every well-formed request round-trips whatever came before. Non-trivial = every judged request; distinct by (codec, coding, content-type spelling, broken kind, pretty, provider, mode).")
+	ctx.Rule("values of a generated struct family (int64/uint64 extremes and 2^53+1, int32, float64 incl. max/denormal/random bit patterns, bool, attribute, nested struct, non-empty slices, strings over ASCII/markup/control/unicode runes restricted to XML Char for XML) are written by the framework's own entity writer (pretty on/off), optionally gzip- (single or multi-member) / deflate-compressed by the harness and posted to an echo route calling ReadEntity into the struct or (JSON, every 4th) into an untyped map where numbers must arrive as exact json.Number; Content-Type spellings with parameters and optional whitespace, or absent with a default request content type, or the written response's Content-Type verbatim (with a filter that pre-set the other codec's type; with a registered vendor type whose key has upper-case letters); both providers. Histories of 24 requests interleave well-formed bodies with broken ones {syntax, truncated document, empty, bad magic, declared-but-plain, garbage, truncated stream, trailer cut/flipped, syntax inside a valid stream}; run sequentially and from 16 goroutines (race detector on). Oracle: reference decode with fresh stdlib readers: error iff the reference errs (never a panic), value DeepEqual to the original / the reference value; every well-formed request round-trips whatever came before. Non-trivial = every judged request; distinct by (codec, coding, content-type spelling, broken kind, pretty, provider, mode).")
 	ctx.Assume("an error is demanded only when the stdlib reference decode of the same bytes errs (a stream missing only its trailer decodes fine, DESIGN §4.8)")
 	defer restful.SetCompressorProvider(restful.NewSyncPoolCompessors())
 	defer restful.DefaultRequestContentType("")
@@ -292,8 +296,15 @@ func c16(ctx *core.Ctx) {
 		}
 		ctx.Case(hi, fmt.Sprintf("provider=%s default_request_content_type=%s", prov, defKind))
 		c := restful.NewContainer()
+		// a filter that declares the API's usual Content-Type before the handler runs (on demand of the request)
+		c.Filter(func(req *restful.Request, resp *restful.Response, chain *restful.FilterChain) {
+			if v := req.Request.Header.Get("X-Preset-Ct"); v != "" {
+				resp.Header().Set("Content-Type", v)
+			}
+			chain.ProcessFilter(req, resp)
+		})
 		ws := new(restful.WebService).Path("/rt")
-		ws.Route(ws.GET("/w").Produces(restful.MIME_JSON, restful.MIME_XML).To(func(req *restful.Request, resp *restful.Response) {
+		ws.Route(ws.GET("/w").Produces(restful.MIME_JSON, restful.MIME_XML, c16Vendor).To(func(req *restful.Request, resp *restful.Response) {
 			resp.WriteEntity(req.Request.Context().Value(c16Key{}).(rtEntity))
 		}))
 		ws.Route(ws.POST("/echo").To(func(req *restful.Request, resp *restful.Response) {
@@ -321,12 +332,28 @@ func c16(ctx *core.Ctx) {
 			}
 			// written by the framework's own entity writer
 			restful.PrettyPrintResponses = it.Pretty
-			wreq := rt.Req{Method: "GET", Path: "/rt/w", HasAcc: true, Accept: map[string]string{"json": restful.MIME_JSON, "xml": restful.MIME_XML}[it.Kind]}
+			wreq := rt.Req{Method: "GET", Path: "/rt/w", HasAcc: true, Accept: map[string]string{"json": restful.MIME_JSON, "xml": restful.MIME_XML}[it.Kind], Hdr: map[string]string{}}
+			sameCT := false
+			switch {
+			case q%4 == 2:
+				// a Content-Type of the OTHER codec is already on the response when the entity is written
+				wreq.Hdr["X-Preset-Ct"] = map[string]string{"json": restful.MIME_XML, "xml": restful.MIME_JSON}[it.Kind]
+				sameCT = true
+			case q%8 == 5 && it.Kind == "json":
+				// a registered vendor type whose key is not all lower case
+				wreq.Accept = c16Vendor
+				sameCT = true
+			}
 			hr := rt.HTTPRequest(&wreq, nil)
 			hr = hr.WithContext(context.WithValue(context.Background(), c16Key{}, it.orig))
 			rec := rt.NewRec()
 			c.Dispatch(rec, hr)
 			plain := append([]byte{}, rec.Body.Bytes()...)
+			if sameCT {
+				// "read back with the entity reader selected by the same Content-Type": the response's, verbatim
+				it.HasCT, it.CT = true, rec.Hdr().Get("Content-Type")
+				ctx.Count("items_read_back_with_the_written_content_type", 1)
+			}
 			if rec.Code() != 200 || len(plain) == 0 {
 				ctx.Violation(hi, "c16:write-failed:"+it.Kind, fmt.Sprintf("entity writer answered %d with %d bytes", rec.Code(), len(plain)), map[string]interface{}{"item": it})
 				continue
